@@ -40,9 +40,15 @@ import (
 	"verifharness/core"
 )
 
+// longWait bounds waits for something that MUST happen.  It is never reached on a correct queue, so it only costs
+// time on a failing run; it has to be long enough that a machine which starves the worker goroutine for seconds
+// (single CPU shared with many busy processes) cannot turn slowness into a "lost"/"producer-blocked"/
+// "stop-not-terminating" verdict (notes/FLAKES.md).
+// shortWait confirms that nothing happens in situations where nothing CAN happen (the worker goroutine has exited /
+// nothing is pending): its expiry is the expected outcome and does not depend on how fast the machine is.
 const (
-	longWait  = 3 * time.Second      // something must happen: waiting this long means it never will
-	shortWait = 4 * time.Millisecond // nothing may happen: we only confirm that briefly
+	longWait  = 30 * time.Second
+	shortWait = 4 * time.Millisecond
 )
 
 // After an oracle violation the run is already decided; waiting the full longWait for every further op of a broken
@@ -51,6 +57,13 @@ const (
 const brokenWait = 60 * time.Millisecond
 
 var violatingCases int
+
+// longExpired counts waits for the worker's exit that ran into longWait (also in Close, where no violation can be
+// reported): a queue whose worker does not terminate would otherwise cost one longWait per case.
+var longExpired int
+
+// decided: enough has been seen; the rest of the run uses brokenWait.
+func decided() bool { return violatingCases > 2 || longExpired > 2 }
 
 type engine struct{}
 
@@ -268,6 +281,7 @@ func waitExit(d time.Duration) bool {
 		}
 		if time.Now().After(deadline) {
 			baseG = runtime.NumGoroutine() // a leaked worker stays; judge later cases on their own
+			longExpired++
 			return false
 		}
 		if i < 200 {
@@ -297,7 +311,7 @@ func (r *runner) v(key, format string, a ...interface{}) {
 
 // long is the time to wait for something that must happen.
 func (r *runner) long() time.Duration {
-	if r.broken || violatingCases > 8 {
+	if r.broken || decided() {
 		return brokenWait
 	}
 	return longWait
@@ -504,7 +518,7 @@ func (r *runner) Exec(op string) (string, string) {
 // ------------------------------------------------------------------ free-running stress
 
 func longG() time.Duration {
-	if violatingCases > 8 {
+	if decided() {
 		return brokenWait
 	}
 	return longWait
@@ -593,12 +607,16 @@ func stress(capN, n int, seed int64, stopAt int, prod, cons string) (string, str
 		addV("producer-blocked", "stress: send %d not accepted within %v, Stop not called (cap %d, consumer %s)", blockedSend, longWait, capN, cons)
 	}
 	if stopAt < 0 {
-		// everything sent must arrive
+		// everything sent must arrive; the wait is progress-based: it only gives up when NOT ONE further value has
+		// arrived for longWait (draining a long burst through a starved worker can take arbitrarily long in total)
 		deadline := time.Now().Add(longWait)
-		for {
+		for last := -1; ; {
 			mu.Lock()
 			cnt := len(received)
 			mu.Unlock()
+			if cnt != last {
+				last, deadline = cnt, time.Now().Add(longWait)
+			}
 			if cnt >= n || time.Now().After(deadline) {
 				break
 			}
